@@ -10,7 +10,7 @@ import (
 
 // Op is one call on the Modules value of a history.
 type Op struct {
-	Op   string `json:"op"` // load | process | read | walk
+	Op   string `json:"op"` // load | process | getmodule (Name = module name) | read | walk
 	Name string `json:"name,omitempty"`
 	Text string `json:"text,omitempty"`
 	// Fault names the fault planted in a bad text ("" for a good text):
